@@ -87,7 +87,12 @@ class H(Harness):
                 continue
             perm = list(range(M))
             rnd.shuffle(perm)
-            out.append({'nodes': list(g.nodes()), 'edges': [list(e) for e in es], 'T': T, 'perm': perm, 'mode': mode})
+            labels = None
+            if rnd.random() < 0.25:
+                pool = ['a', 'b', 'n3', 7, 'x', 11, 'k', 2][:nn]
+                rnd.shuffle(pool)
+                labels = pool
+            out.append({'nodes': list(g.nodes()), 'edges': [list(e) for e in es], 'T': T, 'perm': perm, 'mode': mode, 'labels': labels})
         return out
 
     def exhaustive_cases(self, tier):
@@ -111,37 +116,41 @@ class H(Harness):
         import epydemic
         from epydemic import Percolate, Process, ProcessSequence, StochasticDynamics
         g = networkx.Graph()
-        g.add_nodes_from(case['nodes'])
-        g.add_edges_from([tuple(e) for e in case['edges']])
+        lab = case.get('labels')
+        name = (lambda x: lab[x]) if lab else (lambda x: x)      # node labels of mixed types (ints and strings)
+        back = {name(x): x for x in case['nodes']}
+        g.add_nodes_from(name(x) for x in case['nodes'])
+        g.add_edges_from([(name(a), name(b)) for a, b in case['edges']])
         proto_nodes = list(g.nodes()); proto_edges = list(g.edges())
+        unname = lambda e: (back.get(e[0], -1 - hash(str(e[0])) % 1000), back.get(e[1], -1 - hash(str(e[1])) % 1000))
         rec = {}
 
         class RecPercolate(Percolate):
             def occupy(self, occupied):
-                rec['occupied'] = [tuple(e) for e in occupied]
+                rec['occupied'] = [unname(tuple(e)) for e in occupied]
                 super().occupy(occupied)
 
             def unoccupy(self, unoccupied):
-                rec['unoccupied'] = [tuple(e) for e in unoccupied]
+                rec['unoccupied'] = [unname(tuple(e)) for e in unoccupied]
                 super().unoccupy(unoccupied)
 
         class Probe(Process):
             def build(self, params):
                 super().build(params)
-                rec['next_edges'] = list(self.network().edges())
+                rec['next_edges'] = [unname(e) for e in self.network().edges()]
 
         perc = RecPercolate()
         proc = perc if case['mode'] == 'alone' else ProcessSequence([perc, Probe()])
         orc = install(Oracle(seed=0, script={'shuffle': [case['perm']]}))
         dyn = StochasticDynamics(proc, g)
         end = {}
-        dyn.simulationEnded = lambda res: end.update(nodes=list(dyn.network().nodes()), edges=list(dyn.network().edges()))
+        dyn.simulationEnded = lambda res: end.update(nodes=[back.get(x, -1) for x in dyn.network().nodes()], edges=[unname(e) for e in dyn.network().edges()])
         exc = None
         try:
             dyn.set({Percolate.T: case['T']}).run(fatal=True)
         except Exception as e:  # observable behaviour
             exc = type(e).__name__ + ': ' + str(e)
-        obs = {'exception': exc, 'g_edges': proto_edges, 'occupied': rec.get('occupied'), 'unoccupied': rec.get('unoccupied'),
+        obs = {'exception': exc, 'g_edges': [unname(e) for e in proto_edges], 'occupied': rec.get('occupied'), 'unoccupied': rec.get('unoccupied'),
                'nodes': end.get('nodes'), 'edges': end.get('edges'),
                'next_edges': rec.get('next_edges') if case['mode'] == 'seq' else end.get('edges'),
                'proto_same': list(g.nodes()) == proto_nodes and list(g.edges()) == proto_edges,
